@@ -178,6 +178,11 @@ def one_grammar(ctx, shape, recursive, linear, modes):
     ctx.case(case, repr(shape) if nontriv else None, sample_every=8)
     ctx.count('recursive' if recursive else 'nonrecursive')
     methods = ['fixed-point', 'newton'] + (['linear'] if linear else [])
+    # the two Jacobian implementations selected by j_precompute, called directly at a random point, against the model `Pipe.jac`
+    from . import jac
+    for name in ('real', 'viterbi'):
+        for which in ('J', 'JPP'):
+            jac.stream(ctx, shape, name, which, case)
     results = {}
     jshape = json.loads(json.dumps(shape))
     for name in ('real', 'log', 'viterbi', 'bool'):
